@@ -4,7 +4,7 @@
   (`Conformant`, `specBytes`, `specMessages`, …) is Oryx/Spec/RtmpChunk.lean, written from RTMP 1.0 §5.3
   and independent of the reader model (Oryx/Model/Rtmp.lean).
 -/
-import Oryx.Proofs.Rtmp.SpecTrace
+import Oryx.Proofs.Rtmp.SpecSim
 namespace Oryx.Props.C02
 open Oryx Oryx.Res Oryx.Rtmp Oryx.Spec.RtmpChunk
 
@@ -114,6 +114,12 @@ theorem C02_extts_delta_witness :
     readSpec 3 (specBytes extDeltaTrace) ≠ some (specMessages extDeltaTrace) := by
   decide +kernel
 
+/-- The reader's timestamps on the witness are those of the deviating reading, to which
+`C02_reader_is_absext_variant` applies (the witness is conformant and ends at a message boundary). -/
+example : (messagesAbsExt extDeltaTrace).map (·.ts) = [1000, 16777216, 16777216] ∧
+    readSpec 3 (specBytes extDeltaTrace) = some (messagesAbsExt extDeltaTrace) := by
+  decide +kernel
+
 /-- Hence the full-strength statement is FALSE for the code as it is (known finding K2). -/
 theorem C02_statement_false : ¬ C02_statement := by
   intro h
@@ -141,11 +147,12 @@ theorem C02_decode_partial (tr : List ChunkEv) (rest : Bytes)
     ∃ rms st', readMessages (specMessages tr).length {} (specBytes tr ++ rest) = ok ((rms, st'), rest) ∧
       rms.map toSpec = specMessages tr := by
   unfold Conformant at hc
-  cases hrun : run {} tr with
+  cases hrun : run false {} tr with
   | none => rw [hrun] at hc; simp at hc
   | some r =>
     obtain ⟨s', ms⟩ := r
-    obtain ⟨rms, st', hr, hm, _⟩ := decode_from tr {} s' {} ms rest rel_init hrun hn he
+    obtain ⟨rms, st', hr, hm, _⟩ := decode_from false tr {} s' {} ms rest rel_init hrun
+      (by rw [noExtA_false]; exact hn) (by rw [endsA_false]; exact he)
     have : specMessages tr = ms := by simp [specMessages, hrun]
     rw [this]
     exact ⟨rms, st', hr, hm⟩
@@ -157,11 +164,12 @@ theorem C02_decode_chunks_partial (tr : List ChunkEv) (rest : Bytes) (hc : Confo
     ∃ rms st', readChunks tr.length {} (specBytes tr ++ rest) = ok ((rms, st'), rest) ∧
       rms.map toSpec = specMessages tr := by
   unfold Conformant at hc
-  cases hrun : run {} tr with
+  cases hrun : run false {} tr with
   | none => rw [hrun] at hc; simp at hc
   | some r =>
     obtain ⟨s', ms⟩ := r
-    obtain ⟨rms, st', hr, hm, _⟩ := decode_chunks_from tr {} s' {} ms rest rel_init hrun hn
+    obtain ⟨rms, st', hr, hm, _⟩ := decode_chunks_from false tr {} s' {} ms rest rel_init hrun
+      (by rw [noExtA_false]; exact hn)
     have : specMessages tr = ms := by simp [specMessages, hrun]
     rw [this]
     exact ⟨rms, st', hr, hm⟩
@@ -169,18 +177,71 @@ theorem C02_decode_chunks_partial (tr : List ChunkEv) (rest : Bytes) (hc : Confo
 /-- … and from any point of a session: any sender state and any reader state related by `Rel`
 (same chunk size, chunk table representing the sender's chunk streams, messages in flight included). -/
 theorem C02_decode_partial_from (tr : List ChunkEv) (s s' : Sender) (st : Reader) (ms : List Message) (rest : Bytes)
-    (hrel : Rel s st) (hrun : run s tr = some (s', ms)) (hn : noExtDeltaFrom s tr = true)
+    (hrel : Rel s st) (hrun : run false s tr = some (s', ms)) (hn : noExtDeltaFrom s tr = true)
     (he : endsCompleteFrom s tr = true) :
     ∃ rms st', readMessages ms.length st (specBytes tr ++ rest) = ok ((rms, st'), rest) ∧
       rms.map toSpec = ms ∧ Rel s' st' :=
-  decode_from tr s s' st ms rest hrel hrun hn he
+  decode_from false tr s s' st ms rest hrel hrun (by rw [noExtA_false]; exact hn) (by rw [endsA_false]; exact he)
 
 /-- One chunk event (the refinement step): the relation is preserved and the reader hands back exactly
-the message the chunk completes. -/
-theorem C02_refinement_step (s s' : Sender) (st : Reader) (e : ChunkEv) (out : Option Message) (rest : Bytes)
-    (hrel : Rel s st) (hstep : step s e = some (s', out)) (hno : ¬ UsesExtDelta s e) :
+the message the chunk completes — under the specification (`a = false`) for an event without extended
+delta, under the deviating reading (`a = true`, see `Spec.RtmpChunk.newTs`) for every event. -/
+theorem C02_refinement_step (a : Bool) (s s' : Sender) (st : Reader) (e : ChunkEv) (out : Option Message) (rest : Bytes)
+    (hrel : Rel s st) (hstep : step a s e = some (s', out)) (hno : a = true ∨ ¬ UsesExtDelta s e) :
     ∃ st' om, readChunk st (chunkBytes e ++ rest) = ok ((st', om), rest) ∧ Rel s' st' ∧ om.map toSpec = out :=
-  readChunk_spec s s' st e out rest hrel hstep hno
+  readChunk_spec a s s' st e out rest hrel hstep hno
+
+/-! ### K2 stated exactly: what the reader does on ALL conformant traces -/
+
+/-- For EVERY conformant trace (extended deltas included) the reader returns exactly the messages of
+the chunker semantics in which an extended timestamp field is always read as an absolute time
+(`messagesAbsExt`, i.e. `newTs` with `absExt = true` — NOT the specification). This is the whole of the
+deviation K2: nothing else about a conformant stream is decoded differently. -/
+theorem C02_reader_is_absext_variant (tr : List ChunkEv) (rest : Bytes) (hc : Conformant tr) (he : EndsComplete tr) :
+    ∃ rms st', readMessages (messagesAbsExt tr).length {} (specBytes tr ++ rest) = ok ((rms, st'), rest) ∧
+      rms.map toSpec = messagesAbsExt tr := by
+  unfold Conformant at hc
+  cases hrun : run false {} tr with
+  | none => rw [hrun] at hc; simp at hc
+  | some r =>
+    obtain ⟨s', ms⟩ := r
+    obtain ⟨s2, ms2, hrun2, _, _⟩ := run_sim false true tr {} {} s' ms (sameButTs_refl _) hrun
+    have he2 : endsA true {} tr = true :=
+      endsA_sim false true tr {} {} (sameButTs_refl _) (by rw [endsA_false]; exact he)
+    obtain ⟨rms, st', hr, hm, _⟩ := decode_from true tr {} s2 {} ms2 rest rel_init hrun2 (noExtA_true _ _) he2
+    have : messagesAbsExt tr = ms2 := by simp [messagesAbsExt, hrun2]
+    rw [this]
+    exact ⟨rms, st', hr, hm⟩
+
+/-- The deviating reading and the specification give the same messages up to the timestamps … -/
+theorem absext_same_but_timestamps (tr : List ChunkEv) (hc : Conformant tr) :
+    (messagesAbsExt tr).map noTs = (specMessages tr).map noTs := by
+  unfold Conformant at hc
+  cases hrun : run false {} tr with
+  | none => rw [hrun] at hc; simp at hc
+  | some r =>
+    obtain ⟨s', ms⟩ := r
+    obtain ⟨s2, ms2, hrun2, _, hm⟩ := run_sim false true tr {} {} s' ms (sameButTs_refl _) hrun
+    simp only [messagesAbsExt, specMessages, hrun, hrun2, hm]
+
+/-- … and exactly the same messages on traces without extended delta. -/
+theorem absext_eq_spec_of_noExtendedDelta (tr : List ChunkEv) (hn : NoExtendedDelta tr) :
+    messagesAbsExt tr = specMessages tr := by
+  simp only [messagesAbsExt, specMessages, run_noExt tr {} hn]
+
+/-- **Everything but the timestamps, for every conformant trace** (no `NoExtendedDelta` hypothesis): the
+reader returns the chunked messages — chunk stream, type, message stream, payload — in completion
+order and stays in step with the stream; only timestamps formed from an extended delta differ (K2). -/
+theorem C02_decode_all_but_timestamps (tr : List ChunkEv) (rest : Bytes) (hc : Conformant tr) (he : EndsComplete tr) :
+    ∃ rms st', readMessages (specMessages tr).length {} (specBytes tr ++ rest) = ok ((rms, st'), rest) ∧
+      (rms.map toSpec).map noTs = (specMessages tr).map noTs := by
+  obtain ⟨rms, st', hr, hm⟩ := C02_reader_is_absext_variant tr rest hc he
+  have hsame := absext_same_but_timestamps tr hc
+  have hlen : (messagesAbsExt tr).length = (specMessages tr).length := by
+    have := congrArg List.length hsame
+    simpa using this
+  rw [hlen] at hr
+  exact ⟨rms, st', hr, by rw [hm, hsame]⟩
 
 /-! ### the reader never panics (reused by C07) -/
 
